@@ -125,31 +125,27 @@ def step_result_aggs(fx):
 
 
 def wake_up_rule(fx, ck, name):
-    """No lost wake-up: every take_ready() is dominated by check_resolved_promises() (shared by C07 and C08)."""
-    ck.rule(name, "in step(): wait_graph.take_ready() is dominated by check_resolved_promises()", floor=1)
-    st = fx.one("interpreter::Interpreter::step")
-    checks = [bi for bi, t in st.calls() if t[1].get("d", "").endswith("Interpreter::check_resolved_promises")]
-    takes = [(bi, t) for bi, t in st.calls() if t[1].get("d", "").endswith("WaitGraph::take_ready")]
-    ck.anchor(bool(takes), "call of WaitGraph::take_ready in Interpreter::step")
-    for bi, t in takes:
-        ok = any(st.dominates(c, bi) for c in checks)
-        ck.instance(name, "step/take_ready", F.short_span(t[6]), ok=ok)
-        if not ok:
-            ck.finding(name, name + "/step", F.short_span(t[6]),
-                       "step() takes a ready context without first moving waiters of settled promises to the ready queue (check_resolved_promises): "
-                       "a promise settled by any route other than the api helpers never wakes its waiter")
-    # every other caller of take_ready must do the same
+    """No lost wake-up: every take_ready() is dominated by check_resolved_promises() in the same function
+    (shared by C07 and C08; wherever the readiness test lives - step() or a helper extracted from it)."""
+    ck.rule(name, "every wait_graph.take_ready() is dominated by check_resolved_promises()", floor=1)
+    n = 0
     for f in fx.fns.values():
-        if f.path == st.path:
+        if f.derived:
             continue
-        for bi, t in f.calls():
-            if t[1].get("d", "").endswith("WaitGraph::take_ready"):
-                cs = [b for b, tt in f.calls() if tt[1].get("d", "").endswith("Interpreter::check_resolved_promises")]
-                ok = any(f.dominates(c, bi) for c in cs)
-                ck.instance(name, "%s/take_ready" % f.path, F.short_span(t[6]), ok=ok)
-                if not ok:
-                    ck.finding(name, name + "/%s" % f.path, F.short_span(t[6]), "`%s` takes a ready context without check_resolved_promises()" % f.path)
-
+        takes = [(bi, t) for bi, t in f.calls() if t[1].get("d", "").endswith("WaitGraph::take_ready")]
+        if not takes:
+            continue
+        checks = [bi for bi, t in f.calls() if t[1].get("d", "").endswith("Interpreter::check_resolved_promises")]
+        short = f.parent.split("::")[-1]
+        for bi, t in takes:
+            n += 1
+            ok = any(f.dominates(c, bi) for c in checks)
+            ck.instance(name, "%s/take_ready" % short, F.short_span(t[6]), ok=ok)
+            if not ok:
+                ck.finding(name, name + "/" + short, F.short_span(t[6]),
+                           "%s() takes a ready context without first moving waiters of settled promises to the ready queue (check_resolved_promises): "
+                           "a promise settled by any route other than the api helpers never wakes its waiter" % short)
+    ck.anchor(n >= 1, "a call of WaitGraph::take_ready in the interpreter (found %d)" % n)
 
 
 def run(tier):
@@ -163,8 +159,8 @@ def run(tier):
     have = {x["name"] for x in interp["variants"][0]["fields"]} if interp else set()
     ck.anchor(set(LEDGER) <= have, "Interpreter ledger fields %s" % (LEDGER,))
 
-    ck.rule("R1.report-on-suspend", "Suspended{pending,cancelled}: cancelled = mem::take(cancelled_orders); pending = mem::take(pending_orders) or Vec::new() on the ledger-empty edge", floor=10)
-    ck.rule("R2.complete-quiescent", "Complete is constructed only on the nothing-outstanding edges of the three ledger tests", floor=2)
+    ck.rule("R1.report-on-suspend", "Suspended{pending,cancelled}: cancelled = mem::take(cancelled_orders); pending = mem::take(pending_orders) or Vec::new() on the ledger-empty edge", floor=2)
+    ck.rule("R2.complete-quiescent", "Complete is constructed only on the nothing-outstanding edges of the three ledger tests", floor=1)
     for f, bi, s in step_result_aggs(fx):
         var = s[2][1]["v"]
         names = s[2][1]["fields"]
